@@ -1,11 +1,18 @@
 #!/bin/sh
-# usage: tools/selftest_all.sh [tier]   re-validates every stored seeded change against the current /repo HEAD (scratch worktrees), one after
+# usage: tools/selftest_all.sh [tier] [seeded/Cnn-k ...]   re-validates every stored seeded change against the current /repo HEAD (scratch worktrees), one after
 # the other; writes seeded/RESULTS.tsv: id, demo on clean tree, baseline missing, demo on mutant, check exit, first VIOLATION line
-tier="${1:-quick}"
+tier="${1:-quick}"; shift 2>/dev/null
 cd "$(dirname "$0")/.."
 out=seeded/RESULTS.tsv
-printf "id\tdemo_clean\tbaseline_missing\tdemo_mutant\tcheck_exit\tfirst_violation\n" > "$out"
-for d in seeded/C??-?; do
+list="$*"
+if [ -z "$list" ]; then
+  printf "id\tdemo_clean\tbaseline_missing\tdemo_mutant\tcheck_exit\tfirst_violation\n" > "$out"
+  list=$(ls -d seeded/C??-?)
+else
+  # re-validate only the named ones: their old lines are replaced
+  for x in $list; do id=$(basename "$x"); grep -v "^$id	" "$out" > "$out.tmp" && mv "$out.tmp" "$out"; done
+fi
+for d in $list; do
   id=$(basename "$d"); prop=${id%-*}
   r=$(tools/confirm_mutant.sh "$(pwd)/$d" "$prop" "$tier" 2>&1)
   res=$(echo "$r" | grep '^RESULT' | head -1)
